@@ -11,6 +11,8 @@ if ROUND == '4':
     MAP = {'A': 'E', 'B': 'F'}
 if ROUND == '5':
     MAP = {'A': 'G', 'B': 'H'}
+if ROUND == '6':
+    MAP = {'A': 'I', 'B': 'J'}
 for p in sys.argv[1:]:
     notes=open('/tmp/wt/%s/seeded/NOTES.md'%p).read()
     unconfirmed = []
